@@ -78,6 +78,9 @@ def run(an: Analysis, rep):
                         config=vname(V))
     rep.stats.update(an.stats(interps))
     rep.run(r053, an, rep)
+    from .common import SharedRules
+    from . import c03
+    rep.run(c03.r037, an, SharedRules(rep, "R05.R", "re-layout after normalization (shared with C03's R03.7): with the width overrides stripped, jumps still land on their targets"))
 
 
 class _O(dict):
